@@ -96,7 +96,8 @@ Fixpoint scan (c : ctx) (no_comma : bool) (has_dec : bool) (l : list tok) : nat 
       else if (tag k =? 1) || (tag k =? 2) then
         let isb := has_any (block c) (text k) in
         let isd := has_any (dec c) (text k) in
-        if (str_eqb (text k) [44] && no_comma) || negb (isb || isd) || (isd && has_dec) then (0%nat, isd && has_dec)
+        if (str_eqb (text k) [44] && no_comma) || negb (isb || isd) || (isd && has_dec)
+        then (0%nat, isd && has_dec && negb (match r with [] => true | _ => false end))     (* not the last sibling (after the repair) *)
         else let (n, b) := scan c no_comma (has_dec || isd) r in (Datatypes.S n, b)
       else (0%nat, false)
   end.
